@@ -366,7 +366,7 @@ package statebackend
 //@   ensures retention_checked: calls_RequireRetained == old(calls_RequireRetained) + 1
 //@   ensures a_view_pinned_to_the_block: result2 == nil ==> calls_LegacyHistory == old(calls_LegacyHistory) + 1 && arg_LegacyHistory_blockNumber == blockNumber
 //@ func (*deprecatedStateBackend).StateAtBlockHash
-//@   props C03
+//@   props C03, C16
 //@   arith int
 //@   nosafe
 //@   requires b != nil && b.database != nil && blockHash != nil
